@@ -92,6 +92,13 @@ fn main() {
                 2
             }
         },
+        "dup" => match stress::dup(&kv["out"]) {
+            Ok(c) => c,
+            Err(e) => {
+                eprintln!("harness error: {e}");
+                2
+            }
+        },
         "stress" => {
             let opts = stress::Opts {
                 cancelable: kv.contains_key("cancelable"),
